@@ -9,6 +9,7 @@ mod faultrng;
 mod free;
 mod group;
 mod observe;
+mod refmodel;
 mod runner;
 mod simrng;
 mod world;
@@ -203,6 +204,8 @@ fn main() {
                 "C16" => checks::c16::C16,
                 "C13" => checks::c13::C13,
                 "C14" => checks::c14::C14,
+                "C02" => checks::c02::C02,
+                "C04" => checks::c04::C04,
                 "C08" => checks::c08::C08,
                 "C12" => checks::c12::C12,
             }
@@ -211,6 +214,8 @@ fn main() {
         "C03" => drive(&checks::c03::C03, &parse_opts(&args[1..]), vec![]),
         "C05" => drive(&checks::c05::C05, &parse_opts(&args[1..]), vec![]),
         "C13" => drive(&checks::c13::C13, &parse_opts(&args[1..]), vec![]),
+        "C02" => drive(&checks::c02::C02, &parse_opts(&args[1..]), vec![]),
+        "C04" => drive(&checks::c04::C04, &parse_opts(&args[1..]), vec![]),
         "C08" => drive(&checks::c08::C08, &parse_opts(&args[1..]), vec![]),
         "C12" => drive(&checks::c12::C12, &parse_opts(&args[1..]), vec![]),
         "C14" => drive(&checks::c14::C14, &parse_opts(&args[1..]), vec![]),
